@@ -17,6 +17,14 @@ SYNTAX_TB = [
 ]
 
 PROPS = {
+    "C11": {
+        "gen": [],
+        "trusted_base": COMMON_TB + [
+            "modelled, not verified: std `str::lines`, `split_once`, `split`, `trim` (`trim_matches` slice offsets), `starts_with`/`ends_with`, slicing, `HashSet`/`HashMap` get/insert; re-implemented over List Char in lean/CookModel/Side/Aisle.lean and tied to std by the exhaustive + random correspondence run",
+            "the explicit Unicode White_Space table of the model is compared with `char::is_whitespace` over all scalar values in every run (op ws_table)"],
+        "assumptions": ["text is a sequence of Unicode scalar values (Rust `&str`); byte offsets are sums of UTF-8 lengths",
+                        "`AisleConf` equality is taken on freshly parsed configurations (the private `len` cache cell is 0); `ingredients_info` is the lookup"],
+    },
     "C12": {
         "gen": [CONSTS],
         "trusted_base": COMMON_TB + [FLOAT_TB,
